@@ -608,3 +608,27 @@ func zzArmedChan[T any](c chan T) bool  { panic("spec only") }
 
 //@ iface Message.HeaderBytes
 //@ dispatch *ControlMessage, *DataMessage
+
+// ---- C11: reconnect backoff ----
+
+//@ func nextBackoffDelay
+//@ ensures [cap]   ceil > 0 ==> 0 < result && result <= ceil
+//@ ensures [ceil]  result == ceil || (0 < result && result < ceil)
+
+//@ func (*connection).reconnectSleep
+//@ operation
+
+//@ func (*connection).connectLoop
+//@ nosafety nil-deref nil-iface
+//@ noframe
+//@ emits hsms.(*ConnectionMetrics).incReconnects, hsms.(*connection).reconnectSleep, hsms.(*epoch).teardown, hsms.(transport).Start, atomic.Load:shutdown, atomic.Load:reconnectGen
+//@ requires c != nil
+//@ loop 1 preserves [sleepcap] zzCalls("hsms.(*connection).reconnectSleep") == 1 &&
+//@                             zzArg[time.Duration]("hsms.(*connection).reconnectSleep", 0) <= cfg.timers.T5 &&
+//@                             zzArg[time.Duration]("hsms.(*connection).reconnectSleep", 0) <= old(delay)
+//@ loop 1 preserves [nextcap]  cfg.timers.T5 > 0 ==> 0 < delay && delay <= cfg.timers.T5
+//@ loop 1 preserves [retry]    zzCalls("hsms.(transport).Start") == 1 && zzCalls("hsms.(*ConnectionMetrics).incReconnects") == 0
+//@ loop 1 preserves [fence]    !zzRet[bool]("atomic.Load:shutdown") && zzRet[uint64]("atomic.Load:reconnectGen") == gen
+//@ ensures [count]   zzCalls("hsms.(*ConnectionMetrics).incReconnects") <= 1
+//@ ensures [counted] zzCalls("hsms.(*ConnectionMetrics).incReconnects") == 1 ==> countReconnect && zzRet[error]("hsms.(transport).Start") == nil &&
+//@                   !zzRet[bool]("atomic.Load:shutdown") && zzRet[uint64]("atomic.Load:reconnectGen") == gen
